@@ -555,3 +555,870 @@ Proof.
   pose proof (env_val_data _ _ args E false a HL Had HEok Hr (or_intror I)) as H.
   destruct a; auto.
 Qed.
+
+(* ================================================================================== *)
+(* F. reading [wired] / [coh] pointwise                                                 *)
+Lemma wired_kids ps body rets fl l ps' ols recvs kept uirecv sb manual order :
+  wired (MDef ps body rets fl) (SMac l ps' ols recvs kept uirecv sb manual order) ->
+  List.length body = List.length sb /\
+  forall j, j < List.length body ->
+    match s_mac (nth j body dstmt) with
+    | None => kid sb j = SFn (s_label (nth j body dstmt)) false (List.length (sargs body j))
+    | Some d' => wired d' (kid sb j) /\ s_label_of (kid sb j) = s_label (nth j body dstmt)
+    end.
+Proof.
+  simpl. intros (_ & _ & _ & H). apply (all2_nth _ dstmt dsb) in H. exact H.
+Qed.
+
+Lemma wired_nins d s : wired d s -> s_nins s = List.length (d_params d).
+Proof. destruct d, s; simpl; [tauto|]. intros (-> & _). reflexivity. Qed.
+
+Lemma wired_nouts d s : wired d s -> s_nouts s = d_nouts d.
+Proof. destruct d, s; simpl; [tauto|]. intros (_ & -> & _). unfold d_nouts. simpl. now rewrite map_length. Qed.
+
+Lemma coh_kids ps body rets fl l ps' ols recvs kept uirecv sb manual order v :
+  coh (MDef ps body rets fl) (SMac l ps' ols recvs kept uirecv sb manual order) v ->
+  forall j, j < List.length body ->
+    match s_mac (nth j body dstmt) with
+    | None => fn_coh false (nth j (v_body v) dv)
+    | Some d' => coh d' (kid sb j) (nth j (v_body v) dv) /\
+                 forall k, List.length (sargs body j) <= k -> k < List.length (d_params d') ->
+                           nth k (v_ins (nth j (v_body v) dv)) None = p_default (nth k (d_params d') dparam)
+    end.
+Proof.
+  simpl. intros (_ & _ & H). apply (all3_nth _ dstmt dsb dv) in H. apply H.
+Qed.
+
+Lemma coh_intro ps body rets fl l ps' ols recvs kept uirecv sb manual order v :
+  coh_level ps body rets recvs kept uirecv sb (v_ins v) (v_outs v) (v_ui v) (v_body v) ->
+  (forall cc, v_cache v = Some cc -> all_data cc = true /\ denote (MDef ps body rets fl) cc = Some (v_outs v)) ->
+  List.length body = List.length sb ->
+  (forall j, j < List.length body ->
+    match s_mac (nth j body dstmt) with
+    | None => fn_coh false (nth j (v_body v) dv)
+    | Some d' => coh d' (kid sb j) (nth j (v_body v) dv) /\
+                 forall k, List.length (sargs body j) <= k -> k < List.length (d_params d') ->
+                           nth k (v_ins (nth j (v_body v) dv)) None = p_default (nth k (d_params d') dparam)
+    end) ->
+  coh (MDef ps body rets fl) (SMac l ps' ols recvs kept uirecv sb manual order) v.
+Proof.
+  intros HL Hc Hlen Hk. cbn [coh]. split; [exact HL|]. split; [exact Hc|].
+  apply (all3_nth _ dstmt dsb dv). split; [exact Hlen|]. split; [|exact Hk].
+  destruct HL as (_ & _ & _ & H & _). lia.
+Qed.
+
+Lemma nth_error_nth2 {A} (l : list A) k d x : nth_error l k = Some x -> nth k l d = x /\ k < List.length l.
+Proof. intros H. split; [now apply nth_error_nth|]. apply nth_error_Some. congruence. Qed.
+
+Lemma nth_error_of_nth {A} (l : list A) k d : k < List.length l -> nth_error l k = Some (nth k l d).
+Proof. intros H. now apply List.nth_error_nth'. Qed.
+
+(* ================================================================================== *)
+(* G. a macro-level input update keeps the macro in agreement with its definition       *)
+Lemma arg_lt_nins ps body rets fl recvs kept uirecv sb manual order j k a :
+  wired_level ps body rets fl recvs kept uirecv sb manual order ->
+  j < List.length body -> nth_error (sargs body j) k = Some a -> k < s_nins (kid sb j).
+Proof.
+  intros (_ & _ & _ & _ & _ & _ & _ & _ & _ & Hb) Hj Ha.
+  destruct (Hb j Hj) as (Hle & _). apply nth_error_nth2 with (d := a) in Ha as [_ Ha]. unfold kid. lia.
+Qed.
+
+Lemma ui_set u x :
+  List.length (v_ins u) = 1 -> fn_coh true u ->
+  List.length (v_ins (set_fn u 0 x)) = 1 /\ fn_coh true (set_fn u 0 x) /\
+  v_ins (set_fn u 0 x) = [x] /\ v_outs (set_fn u 0 x) = v_outs u.
+Proof.
+  destruct u as [ins outs c ui vb]. simpl. intros HL HF.
+  destruct ins as [|a [|b r]]; simpl in *; try discriminate. auto.
+Qed.
+
+Ltac level_intro :=
+  unfold coh_level; rewrite ?upd_nth_length;
+  repeat match goal with |- _ /\ _ => split end.
+
+Lemma set_in_coh d : forall s v k x,
+  wired d s -> coh d s v -> k < List.length (d_params d) -> coh d s (set_in s v k x).
+Proof.
+  induction d as [ps body rets fl IH] using mdef_ind'. intros s v k x Hw Hc Hk.
+  destruct s as [|l ps' ols recvs kept uirecv sb manual order]; [simpl in Hw; tauto|].
+  pose proof (wired_kids _ _ _ _ _ _ _ _ _ _ _ _ _ Hw) as [Hlen Hwk].
+  pose proof (coh_kids _ _ _ _ _ _ _ _ _ _ _ _ _ _ Hc) as Hck.
+  destruct Hw as (-> & -> & HWL & _).
+  pose proof (fun j k a => arg_lt_nins _ _ _ _ _ _ _ _ _ _ j k a HWL) as Hargk.
+  destruct HWL as (Hlr & Hlk & Hlu & Hcfg & Hui & Hrk & Hrb & Hrb' & Hpass & Hbody).
+  destruct Hc as (HCL & Hcache & _).
+  destruct v as [ins outs c ui vb]. simpl in HCL, Hcache, Hck, Hk.
+  destruct HCL as (Li & Lo & Lu & Lb & Hu1 & Hu2 & Hc1 & Hc2 & Hlin & Hc4u & Hc4b).
+  rewrite set_in_mac. unfold set_mac_with.
+  rewrite (nth_error_of_nth recvs k ROrphan) by lia.
+  destruct (nth k kept false) eqn:Ekept.
+  - (* forwarded to its interface node *)
+    rewrite (Hrk k Hk Ekept).
+    destruct (Hu1 k Hk) as [HLk HFk]. destruct (ui_set _ x HLk HFk) as (S1 & S2 & S3 & S4).
+    apply coh_intro; simpl; auto.
+    level_intro; auto.
+    + intros i Hi. destruct (Nat.eq_dec i k) as [->|Hne].
+      * rewrite nth_upd_same by lia. auto.
+      * rewrite nth_upd_other by auto. apply Hu1; auto.
+    + intros i Hi Hki. destruct (Nat.eq_dec i k) as [->|Hne].
+      * rewrite !nth_upd_same by lia. exact S3.
+      * rewrite !nth_upd_other by auto. apply Hu2; auto.
+    + intros i j k' Hi Hki Hr. rewrite (Hc1 i j k' Hi Hki Hr).
+      rewrite nth_upd_other; auto. intros ->. congruence.
+    + intros i o Hi Ho. rewrite (Hc4u i o Hi Ho).
+      destruct (Nat.eq_dec i k) as [->|Hne].
+      * rewrite nth_upd_same by lia. now rewrite S4.
+      * rewrite nth_upd_other by auto. reflexivity.
+  - (* the interface node was removed *)
+    pose proof (Hrb' k Hk Ekept) as Hk'.
+    destruct (nth k recvs ROrphan) as [i0|j0 k0|] eqn:Erecv; [tauto| |].
+    + destruct Hk' as [Hj0 Harg0].
+      assert (Hk0 : k0 < s_nins (kid sb j0)) by (eapply Hargk; eauto).
+      assert (Hother : forall j k' a, j < List.length body -> nth_error (sargs body j) k' = Some a ->
+                         a <> AParam k -> nth k' (v_ins (nth j (upd_nth j0 (set_in (kid sb j0) (nth j0 vb dv) k0 x) vb) dv)) None
+                                          = nth k' (v_ins (nth j vb dv)) None).
+      { intros j k' a Hj Ha Hne. destruct (Nat.eq_dec j j0) as [->|Hnj].
+        - rewrite nth_upd_same by lia. rewrite set_in_ins. rewrite nth_upd_other; auto.
+          intros ->. congruence.
+        - rewrite nth_upd_other by auto. reflexivity. }
+      apply coh_intro; simpl; auto.
+      * level_intro; auto.
+        -- intros i Hi Hki. rewrite (Hu2 i Hi Hki). rewrite nth_upd_other; auto. intros ->. congruence.
+        -- intros i j k' Hi Hki Hr. destruct (Nat.eq_dec i k) as [->|Hne].
+           ++ rewrite Erecv in Hr. inversion Hr; subst j k'.
+              rewrite !nth_upd_same by lia. rewrite set_in_ins. rewrite nth_upd_same; auto.
+              rewrite Hlin by lia. exact Hk0.
+           ++ rewrite (nth_upd_other k i) by auto. rewrite <- (Hc1 i j k' Hi Hki Hr).
+              pose proof (Hrb' i Hi Hki) as Hi'. rewrite Hr in Hi'. destruct Hi' as [Hj Ha].
+              apply (Hother j k' (AParam i)); auto. congruence.
+        -- intros j k' z Hj Ha. rewrite <- (Hc2 j k' z Hj Ha). apply (Hother j k' (AConst z)); auto. discriminate.
+        -- intros j Hj. destruct (Nat.eq_dec j j0) as [->|Hnj].
+           ++ rewrite nth_upd_same by lia. rewrite set_in_ins, upd_nth_length. auto.
+           ++ rewrite nth_upd_other by auto. auto.
+        -- intros j lo o Hj Ho. rewrite (Hc4b j lo o Hj Ho). destruct (Nat.eq_dec j j0) as [->|Hnj].
+           ++ rewrite nth_upd_same by lia. now rewrite set_in_outs.
+           ++ rewrite nth_upd_other by auto. reflexivity.
+      * intros j Hj. specialize (Hck j Hj). specialize (Hwk j Hj).
+        destruct (Nat.eq_dec j j0) as [->|Hnj]; [|rewrite nth_upd_other by auto; exact Hck].
+        rewrite nth_upd_same by lia.
+        destruct (s_mac (nth j0 body dstmt)) as [d'|] eqn:Em.
+        -- destruct Hck as [Hck1 Hck2]. destruct Hwk as [Hwk1 _]. split.
+           ++ apply (IH j0 d' Em); auto. rewrite <- (wired_nins _ _ Hwk1). exact Hk0.
+           ++ intros k1 Hk1 Hk1'. rewrite set_in_ins. rewrite nth_upd_other; [auto|].
+              apply nth_error_nth2 with (d := AConst 0) in Harg0 as [_ Hlt]. lia.
+        -- rewrite Hwk. simpl. destruct Hck as [A B]. destruct (nth j0 vb dv). exact (conj A B).
+    + (* nothing listens *)
+      apply coh_intro; simpl; auto.
+      level_intro; auto.
+      * intros i Hi Hki. rewrite (Hu2 i Hi Hki). rewrite nth_upd_other; auto. intros ->. congruence.
+      * intros i j k' Hi Hki Hr. rewrite (Hc1 i j k' Hi Hki Hr). rewrite nth_upd_other; auto.
+        intros ->. congruence.
+Qed.
+
+(* ================================================================================== *)
+(* H. pushes, fetch, function nodes                                                     *)
+Definition app_pushes (ps : list (nat * val)) (o : list val) : list val :=
+  fold_left (fun acc lx => upd_nth (fst lx) (snd lx) acc) ps o.
+
+Lemma app_pushes_length ps o : List.length (app_pushes ps o) = List.length o.
+Proof. revert o; induction ps as [|[l x] r IH]; intros o; simpl; auto. rewrite IH. apply upd_nth_length. Qed.
+
+Lemma app_pushes_app p q o : app_pushes (p ++ q) o = app_pushes q (app_pushes p o).
+Proof. unfold app_pushes. apply fold_left_app. Qed.
+
+Lemma apply_pushes_exact orecv ps outs :
+  fst (apply_pushes orecv ps outs) = app_pushes (snd (apply_pushes orecv ps outs)) outs.
+Proof.
+  revert outs; induction ps as [|[l x] r IH]; intros outs; simpl; auto.
+  destruct (nth l orecv None) as [o|]; [|apply IH].
+  specialize (IH (upd_nth o x outs)). destruct (apply_pushes orecv r (upd_nth o x outs)) as [o' q]. simpl in *. exact IH.
+Qed.
+
+Lemma apply_pushes_len orecv ps outs : List.length (fst (apply_pushes orecv ps outs)) = List.length outs.
+Proof. rewrite apply_pushes_exact. apply app_pushes_length. Qed.
+
+Lemma apply_pushes_range orecv ps outs n :
+  (forall l o, nth l orecv None = Some o -> o < n) ->
+  forall ox, In ox (snd (apply_pushes orecv ps outs)) -> fst ox < n.
+Proof.
+  intros Hr. revert outs; induction ps as [|[l x] r IH]; intros outs ox; simpl; [tauto|].
+  destruct (nth l orecv None) as [o|] eqn:El; [|apply IH].
+  specialize (IH (upd_nth o x outs)). destruct (apply_pushes orecv r (upd_nth o x outs)) as [o' q]. simpl in *.
+  intros [<-|H]; [simpl; eauto|auto].
+Qed.
+
+(* after the pushes of a child have been absorbed, every linked output of the parent holds what
+   the child's output holds, and nothing else changed *)
+Lemma apply_pushes_link orecv ps outs co :
+  (forall l l' o, nth l orecv None = Some o -> nth l' orecv None = Some o -> l = l') ->
+  (forall l o, nth l orecv None = Some o -> o < List.length outs) ->
+  (forall lx, In lx ps -> fst lx < List.length co) ->
+  (forall l o, nth l orecv None = Some o -> nth o outs None = nth l co None) ->
+  let outs' := fst (apply_pushes orecv ps outs) in
+  (forall l o, nth l orecv None = Some o -> nth o outs' None = nth l (app_pushes ps co) None) /\
+  (forall o, (forall l, nth l orecv None <> Some o) -> nth o outs' None = nth o outs None).
+Proof.
+  intros Hinj. revert outs co; induction ps as [|[l x] r IH]; intros outs co Hrange Hps Hlink; simpl.
+  - split; auto.
+  - assert (Hl : l < List.length co) by (apply (Hps (l, x)); simpl; auto).
+    assert (Hps' : forall lx, In lx r -> fst lx < List.length (upd_nth l x co)).
+    { intros lx H. rewrite upd_nth_length. apply Hps. simpl; auto. }
+    destruct (nth l orecv None) as [o|] eqn:El.
+    + assert (Ho : o < List.length outs) by eauto.
+      destruct (IH (upd_nth o x outs) (upd_nth l x co)) as [A B]; auto.
+      { intros l0 o0 H0. rewrite upd_nth_length. eauto. }
+      { intros l0 o0 H0. destruct (Nat.eq_dec o0 o) as [->|Hne].
+        - assert (l0 = l) by eauto. subst l0. rewrite !nth_upd_same; auto.
+        - rewrite !nth_upd_other; auto. intros ->. congruence. }
+      destruct (apply_pushes orecv r (upd_nth o x outs)) as [o' q]. simpl in *. split; auto.
+      intros o0 H0. rewrite B by auto. apply nth_upd_other. intros ->. apply (H0 l). exact El.
+    + destruct (IH outs (upd_nth l x co)) as [A B]; auto.
+      intros l0 o0 H0. rewrite (Hlink l0 o0 H0). rewrite nth_upd_other; auto. intros ->. congruence.
+Qed.
+
+Lemma fetch_from_spec sj ui body conns : forall k0 vj n (P : vnode -> Prop),
+  (forall v k x, k < n -> P v -> P (set_in sj v k x)) -> k0 + List.length conns <= n -> P vj ->
+  let vj' := fetch_from (fun v k x => set_in sj v k x) ui body conns k0 vj in
+  P vj' /\ v_outs vj' = v_outs vj /\ v_cache vj' = v_cache vj /\
+  List.length (v_ins vj') = List.length (v_ins vj) /\
+  (forall k, k < List.length (v_ins vj) ->
+     nth k (v_ins vj') None =
+     if Nat.leb k0 k && Nat.ltb k (k0 + List.length conns) then
+       match first_data (map (src_val ui body) (nth (k - k0) conns [])) with
+       | Some z => Some z
+       | None => nth k (v_ins vj) None
+       end
+     else nth k (v_ins vj) None).
+Proof.
+  induction conns as [|c r IH]; intros k0 vj n P HP Hn Hvj; simpl.
+  - repeat split; auto. intros k Hk. rewrite Nat.add_0_r.
+    destruct (Nat.leb_spec k0 k), (Nat.ltb_spec k k0); simpl; auto; lia.
+  - simpl in Hn.
+    set (vj1 := match first_data (map (src_val ui body) c) with Some z => set_in sj vj k0 (Some z) | None => vj end).
+    assert (H1 : P vj1 /\ v_outs vj1 = v_outs vj /\ v_cache vj1 = v_cache vj /\
+                 v_ins vj1 = match first_data (map (src_val ui body) c) with
+                             | Some z => upd_nth k0 (Some z) (v_ins vj) | None => v_ins vj end).
+    { unfold vj1. destruct (first_data _) as [z|]; auto.
+      rewrite set_in_outs, set_in_cache, set_in_ins. repeat split; auto. apply HP; auto. lia. }
+    destruct H1 as (P1 & O1 & C1 & I1).
+    destruct (IH (S k0) vj1 n P HP ltac:(lia) P1) as (P2 & O2 & C2 & L2 & N2).
+    fold vj1. repeat split; auto; try congruence.
+    + rewrite L2, I1. destruct (first_data _); auto. apply upd_nth_length.
+    + intros k Hk. rewrite N2.
+      2:{ rewrite I1. destruct (first_data _); auto. now rewrite upd_nth_length. }
+      rewrite I1.
+      destruct (Nat.eq_dec k k0) as [->|Hne].
+      * assert (B1 : Nat.leb (S k0) k0 = false) by (apply Nat.leb_gt; lia).
+        assert (B2 : Nat.leb k0 k0 = true) by (apply Nat.leb_le; lia).
+        assert (B3 : Nat.ltb k0 (k0 + S (List.length r)) = true) by (apply Nat.ltb_lt; lia).
+        rewrite B1, B2, B3, Nat.sub_diag. cbn [andb nth].
+        destruct (first_data (map (src_val ui body) c)); auto. apply nth_upd_same; auto.
+      * assert (Hold : forall z, nth k (upd_nth k0 (Some z) (v_ins vj)) None = nth k (v_ins vj) None).
+        { intros z. apply nth_upd_other; auto. }
+        destruct (Nat.leb_spec (S k0) k) as [Hle|Hgt].
+        -- assert (B2 : Nat.leb k0 k = true) by (apply Nat.leb_le; lia). rewrite B2.
+           replace (k0 + S (List.length r)) with (S k0 + List.length r) by lia.
+           cbn [andb]. replace (k - k0) with (S (k - S k0)) by lia. cbn [nth].
+           destruct (first_data (map (src_val ui body) c)); rewrite ?Hold; reflexivity.
+        -- assert (B2 : Nat.leb k0 k = false) by (apply Nat.leb_gt; lia). rewrite B2. cbn [andb].
+           destruct (first_data (map (src_val ui body) c)); rewrite ?Hold; reflexivity.
+Qed.
+
+Lemma run_fn_spec idf v :
+  fn_coh idf v -> all_data (v_ins v) = true ->
+  exists v' c ps, run_fn idf v = Some (v', c, ps) /\ fn_coh idf v' /\ v_ins v' = v_ins v /\
+    v_outs v' = [Some (if idf then hd 0%Z (vals (v_ins v)) else mlin (vals (v_ins v)))] /\
+    v_outs v' = app_pushes ps (v_outs v) /\ (forall lx, In lx ps -> fst lx < List.length (v_outs v)).
+Proof.
+  destruct v as [ins outs c ui vb]. unfold fn_coh. simpl. intros [HL HC] Had.
+  destruct (cache_hit c ins) eqn:Eh.
+  - apply cache_hit_iff in Eh. destruct (HC ins Eh) as [_ Ho].
+    exists (VN ins outs c ui vb), 0, []. simpl.
+    split; [reflexivity|]. split; [split; assumption|]. split; [reflexivity|]. split; [assumption|].
+    split; [reflexivity|]. intros lx [].
+  - rewrite Had. eexists _, _, _. split; [reflexivity|]. simpl.
+    destruct outs as [|o [|o2 r]]; simpl in HL; try discriminate.
+    split; [split; [reflexivity|]|].
+    + intros cc Hcc. inversion Hcc; subst. auto.
+    + split; [reflexivity|]. split; [reflexivity|]. split; [reflexivity|].
+      intros lx [<-|[]]. simpl. lia.
+Qed.
+
+(* ================================================================================== *)
+(* I. which output a returned channel is linked to                                      *)
+Lemma arg_eqb_eq a b : arg_eqb a b = true <-> a = b.
+Proof.
+  destruct a, b; simpl; try (split; congruence).
+  - rewrite Nat.eqb_eq. split; congruence.
+  - rewrite andb_true_iff, !Nat.eqb_eq. split; [intros [-> ->]; auto|intros H; inversion H; auto].
+  - rewrite Z.eqb_eq. split; congruence.
+Qed.
+
+Definition dret : string * arg := (""%string, AConst 0).
+
+Lemma last_idx_some a rets o0 o :
+  last_idx a rets o0 = Some o -> o0 <= o /\ o < o0 + List.length rets /\ snd (nth (o - o0) rets dret) = a.
+Proof.
+  revert o0; induction rets as [|[lab a'] r IH]; intros o0; simpl; [discriminate|].
+  destruct (last_idx a r (S o0)) as [x|] eqn:El.
+  - intros H; inversion H; subst x. destruct (IH _ El) as (A & B & C).
+    repeat split; try lia. replace (o - o0) with (S (o - S o0)) by lia. exact C.
+  - destruct (arg_eqb a a') eqn:Ea; [|discriminate]. intros H; inversion H; subst o.
+    apply arg_eqb_eq in Ea. rewrite Nat.sub_diag. simpl. repeat split; auto; lia.
+Qed.
+
+Lemma last_idx_inj a a' rets o : last_idx a rets 0 = Some o -> last_idx a' rets 0 = Some o -> a = a'.
+Proof.
+  intros H H'. apply last_idx_some in H as (_ & _ & <-). apply last_idx_some in H' as (_ & _ & <-). reflexivity.
+Qed.
+
+Lemma last_idx_none a rets o0 : last_idx a rets o0 = None <-> ~ In a (map snd rets).
+Proof.
+  revert o0; induction rets as [|[lab a'] r IH]; intros o0; simpl; [tauto|].
+  destruct (last_idx a r (S o0)) as [x|] eqn:El.
+  - split; [discriminate|]. intros H. exfalso. apply H. right.
+    apply last_idx_some in El as (A & B & C). rewrite <- C.
+    apply in_map. apply nth_In. lia.
+  - rewrite (IH (S o0)) in El. destruct (arg_eqb a a') eqn:Ea.
+    + apply arg_eqb_eq in Ea. subst. split; [discriminate|]. intros H; exfalso; apply H; auto.
+    + split; auto. intros _ [->|H]; auto.
+      assert (arg_eqb a a = true) by now apply arg_eqb_eq. congruence.
+Qed.
+
+Lemma memb_arg_In a l : memb arg_eqb a l = true <-> In a l.
+Proof.
+  induction l as [|y r IH]; simpl; [split; [discriminate|tauto]|].
+  rewrite orb_true_iff, IH, arg_eqb_eq. split; intros [H|H]; auto.
+Qed.
+
+Lemma last_idx_nodup rets : nodupb arg_eqb (map snd rets) = true ->
+  forall o o0, o < List.length rets -> last_idx (snd (nth o rets dret)) rets o0 = Some (o0 + o).
+Proof.
+  induction rets as [|[lab a'] r IH]; intros Hnd o o0 Ho; simpl in *; [lia|].
+  apply andb_true_iff in Hnd as [Hn Hnd]. destruct o as [|o].
+  - simpl. assert (El : last_idx a' r (S o0) = None).
+    { apply last_idx_none. intros Hin. apply memb_arg_In in Hin. rewrite Hin in Hn. discriminate. }
+    rewrite El. replace (arg_eqb a' a') with true by (symmetry; now apply arg_eqb_eq). f_equal. lia.
+  - rewrite (IH Hnd o (S o0)) by lia. f_equal. lia.
+Qed.
+
+(* ================================================================================== *)
+(* J. one run of a body                                                                 *)
+Definition run_spec (d' : mdef) : Prop :=
+  forall s v, wired d' s -> coh d' s v -> all_data (v_ins v) = true ->
+    exists v' c ps, run s v = Some (v', c, ps) /\ coh d' s v' /\ v_ins v' = v_ins v /\
+      denote d' (v_ins v) = Some (v_outs v') /\ v_outs v' = app_pushes ps (v_outs v) /\
+      (forall lx, In lx ps -> fst lx < List.length (v_outs v)).
+
+Lemma data_some (x : val) : is_data x = true -> Some (zval x) = x.
+Proof. destruct x; simpl; [auto|discriminate]. Qed.
+
+Section Loop.
+  Variables (ps : list param) (body : list (stmt mdef)) (rets : list (string * arg)) (fl : flow).
+  Variables (recvs : list recv) (kept : list bool) (uirecv : list (option nat))
+            (sb : list (sbody snode)) (manual : bool) (order : list kidref).
+  Let np := List.length ps.
+  Let nb := List.length body.
+  Let nr := List.length rets.
+  Hypothesis HWL : wired_level ps body rets fl recvs kept uirecv sb manual order.
+  Hypothesis Hlen : List.length body = List.length sb.
+  Hypothesis Hwk : forall j, j < nb ->
+    match s_mac (nth j body dstmt) with
+    | None => kid sb j = SFn (s_label (nth j body dstmt)) false (List.length (sargs body j))
+    | Some d' => wired d' (kid sb j) /\ s_label_of (kid sb j) = s_label (nth j body dstmt)
+    end.
+  Variable ins : list val.
+  Hypothesis Hins_len : List.length ins = np.
+  Hypothesis Hins_data : all_data ins = true.
+  Variable E : list (list val).
+  Hypothesis HEok : env_ok (body_nouts body) E.
+  Hypothesis HE : forall j, j < nb ->
+    let avs := map (env_val ins E) (sargs body j) in
+    match s_mac (nth j body dstmt) with
+    | None => all_data avs = true /\ nth j E [] = [Some (mlin (vals avs))]
+    | Some d' => all_data (fill avs (d_params d')) = true /\
+                 denote d' (fill avs (d_params d')) = Some (nth j E [])
+    end.
+  Hypothesis Hrefs : forall j, j < nb ->
+    forallb (ref_ok np (firstn j (body_nouts body)) true) (sargs body j) = true.
+  Hypothesis Hnest : forall j d', j < nb -> s_mac (nth j body dstmt) = Some d' ->
+    List.length (sargs body j) <= List.length (d_params d') /\ run_spec d'.
+  Variable outs0 : list val.
+
+  Definition child_ok (j : nat) (vj : vnode) : Prop :=
+    match s_mac (nth j body dstmt) with
+    | None => fn_coh false vj
+    | Some d' => coh d' (kid sb j) vj /\
+                 forall k, List.length (sargs body j) <= k -> k < List.length (d_params d') ->
+                           nth k (v_ins vj) None = p_default (nth k (d_params d') dparam)
+    end.
+
+  Definition linv (done : list kidref) (st : mstate) : Prop :=
+    coh_level ps body rets recvs kept uirecv sb ins (ms_outs st) (ms_ui st) (ms_body st) /\
+    (forall j, j < nb -> child_ok j (nth j (ms_body st) dv)) /\
+    (forall i, In (KUI i) done -> i < np -> nth i kept false = true ->
+               v_outs (nth i (ms_ui st) dv) = [nth i ins None]) /\
+    (forall j, In (KBody j) done -> j < nb -> v_outs (nth j (ms_body st) dv) = nth j E []) /\
+    ms_outs st = app_pushes (ms_pushes st) outs0 /\
+    (forall ox, In ox (ms_pushes st) -> fst ox < nr).
+
+  Definition deps_ok (done : list kidref) (r : kidref) : Prop :=
+    match r with
+    | KUI i => i < np
+    | KBody j => j < nb /\
+        (forall i k, nth_error (sargs body j) k = Some (AParam i) -> nth i kept false = true -> In (KUI i) done) /\
+        (forall j' l k, nth_error (sargs body j) k = Some (AOut j' l) -> In (KBody j') done)
+    end.
+
+  Let step := step_kid (fun j vj k x => set_in (kid sb j) vj k x) (fun j vj => run (kid sb j) vj)
+                       kept uirecv (cinfo_of sb).
+
+  Lemma uirecv_lt i o : i < np -> nth i uirecv None = Some o -> o < nr.
+  Proof.
+    destruct HWL as (_ & _ & _ & _ & Hui & _). intros Hi Ho. rewrite (Hui i Hi) in Ho.
+    apply last_idx_some in Ho. unfold nr. lia.
+  Qed.
+
+  Lemma orecv_lt j l o : j < nb -> nth l (sb_orecv (nth j sb dsb)) None = Some o -> o < nr.
+  Proof.
+    destruct HWL as (_ & _ & _ & _ & _ & _ & _ & _ & _ & Hb). intros Hj Ho.
+    destruct (Hb j Hj) as (_ & _ & HLo & _ & Hor).
+    destruct (Nat.ltb_spec l (s_nouts (sb_node (nth j sb dsb)))) as [Hl|Hl].
+    - rewrite (Hor l Hl) in Ho. apply last_idx_some in Ho. unfold nr. lia.
+    - rewrite nth_overflow in Ho by lia. discriminate.
+  Qed.
+
+  Lemma orecv_is j l o : j < nb -> nth l (sb_orecv (nth j sb dsb)) None = Some o ->
+    last_idx (AOut j l) rets 0 = Some o.
+  Proof.
+    destruct HWL as (_ & _ & _ & _ & _ & _ & _ & _ & _ & Hb). intros Hj Ho.
+    destruct (Hb j Hj) as (_ & _ & HLo & _ & Hor).
+    destruct (Nat.ltb_spec l (s_nouts (sb_node (nth j sb dsb)))) as [Hl|Hl].
+    - now rewrite <- (Hor l Hl).
+    - rewrite nth_overflow in Ho by lia. discriminate.
+  Qed.
+
+  Lemma uirecv_is i o : i < np -> nth i uirecv None = Some o -> last_idx (AParam i) rets 0 = Some o.
+  Proof. destruct HWL as (_ & _ & _ & _ & Hui & _). intros Hi Ho. now rewrite <- (Hui i Hi). Qed.
+
+  Lemma step_ui done st i : linv done st -> i < np ->
+    exists st', step st (KUI i) = Some st' /\ linv (KUI i :: done) st'.
+  Proof.
+    intros (HCL & Hch & Hdu & Hdb & Hpo & Hpr) Hi.
+    unfold step, step_kid. destruct (nth i kept false) eqn:Ek.
+    2:{ exists st. split; auto.
+        split; [exact HCL|split; [exact Hch|split; [|split; [|split; [exact Hpo|exact Hpr]]]]].
+        - intros i' [H|H] Hi' Hk'; [inversion H; subst; congruence|auto].
+        - intros j [H|H] Hj; [discriminate|auto]. }
+    destruct HCL as (Li & Lo & Lu & Lb & Hu1 & Hu2 & Hc1 & Hc2 & Hlin & Hc4u & Hc4b).
+    destruct (Hu1 i Hi) as [HLi HFi].
+    assert (Hdata : all_data (v_ins (nth i (ms_ui st) dv)) = true).
+    { rewrite (Hu2 i Hi Ek). simpl. rewrite andb_true_r. apply all_data_nth; auto. lia. }
+    destruct (run_fn_spec true _ HFi Hdata) as (u' & c & pp & Erun & HF' & Hins' & Houts' & Hpush & Hprange).
+    rewrite Erun. eexists. split; [reflexivity|].
+    assert (Hu'out : v_outs u' = [nth i ins None]).
+    { rewrite Houts', (Hu2 i Hi Ek). simpl. f_equal. apply data_some. apply all_data_nth; auto. lia. }
+    unfold absorb.
+    pose proof (apply_pushes_exact [nth i uirecv None] pp (ms_outs st)) as Hex.
+    pose proof (apply_pushes_len [nth i uirecv None] pp (ms_outs st)) as Hexl.
+    pose proof (apply_pushes_range [nth i uirecv None] pp (ms_outs st) nr) as Hexr.
+    destruct (apply_pushes_link [nth i uirecv None] pp (ms_outs st) (v_outs (nth i (ms_ui st) dv))) as [Hlk1 Hlk2].
+    { intros l l' o Hl Hl'. destruct l as [|l], l' as [|l']; auto; simpl in *; try (destruct l; discriminate); destruct l'; discriminate. }
+    { intros l o Hl. destruct l as [|l]; [|destruct l; discriminate]. simpl in Hl.
+      exact (eq_ind_r (fun n => o < n) (uirecv_lt i o Hi Hl) Lo). }
+    { exact Hprange. }
+    { intros l o Hl. destruct l as [|l]; [|destruct l; discriminate]. simpl in Hl. apply Hc4u; auto. }
+    rewrite <- Hpush in Hlk1.
+    destruct (apply_pushes [nth i uirecv None] pp (ms_outs st)) as [outs' q]. simpl in *.
+    assert (Hother : forall o, nth i uirecv None <> Some o -> nth o outs' None = nth o (ms_outs st) None).
+    { intros o Ho. apply Hlk2. intros l. destruct l as [|l]; [exact Ho|destruct l; discriminate]. }
+    unfold linv. simpl. split; [|split; [|split; [|split; [|split]]]].
+    - level_intro; auto; try lia.
+      + intros i' Hi'. destruct (Nat.eq_dec i' i) as [->|Hne].
+        * rewrite nth_upd_same by lia. split; auto. congruence.
+        * rewrite nth_upd_other by auto. auto.
+      + intros i' Hi' Hk'. destruct (Nat.eq_dec i' i) as [->|Hne].
+        * rewrite nth_upd_same by lia. rewrite Hins'. auto.
+        * rewrite nth_upd_other by auto. auto.
+      + intros i' o Hi' Ho. destruct (Nat.eq_dec i' i) as [->|Hne].
+        * rewrite nth_upd_same by lia. apply (Hlk1 0 o). exact Ho.
+        * rewrite nth_upd_other by auto. rewrite Hother; auto.
+          intros Ho'. apply Hne. 
+          pose proof (last_idx_inj _ _ _ _ (uirecv_is i' o Hi' Ho) (uirecv_is i o Hi Ho')) as Heq. congruence.
+      + intros j l o Hj Ho. rewrite Hother; auto.
+        intros Ho'. pose proof (last_idx_inj _ _ _ _ (orecv_is j l o Hj Ho) (uirecv_is i o Hi Ho')). discriminate.
+    - exact Hch.
+    - intros i' [H|H] Hi' Hk'.
+      + inversion H; subst i'. rewrite nth_upd_same by lia. exact Hu'out.
+      + destruct (Nat.eq_dec i' i) as [->|Hne].
+        * rewrite nth_upd_same by lia. exact Hu'out.
+        * rewrite nth_upd_other by auto. auto.
+    - intros j [H|H] Hj; [discriminate|auto].
+    - rewrite app_pushes_app, <- Hpo. exact Hex.
+    - intros ox Hin. apply in_app_or in Hin as [Hin|Hin]; auto.
+      apply Hexr; auto. intros l o Hl. destruct l as [|l]; [|destruct l; discriminate]. simpl in Hl. eapply uirecv_lt; eauto.
+  Qed.
+
+  Lemma cinfo_nth j : nth j (cinfo_of sb) ([], []) = (sb_conns (nth j sb dsb), sb_orecv (nth j sb dsb)).
+  Proof.
+    unfold cinfo_of. change (@nil (list src), @nil (option nat)) with ((fun e : sbody snode => (sb_conns e, sb_orecv e)) dsb).
+    now rewrite map_nth.
+  Qed.
+
+  (* the inputs child j must run with *)
+  Definition tgt (j : nat) : list val :=
+    let avs := map (env_val ins E) (sargs body j) in
+    match s_mac (nth j body dstmt) with None => avs | Some d' => fill avs (d_params d') end.
+
+  Lemma tgt_length j : j < nb -> List.length (tgt j) = s_nins (kid sb j).
+  Proof.
+    intros Hj. unfold tgt. specialize (Hwk j Hj). destruct (s_mac (nth j body dstmt)) as [d'|].
+    - rewrite fill_length. destruct Hwk as [Hw _]. now rewrite (wired_nins _ _ Hw).
+    - rewrite Hwk. simpl. now rewrite map_length.
+  Qed.
+
+  Lemma tgt_arg j k a : j < nb -> nth_error (sargs body j) k = Some a -> nth k (tgt j) None = env_val ins E a.
+  Proof.
+    intros Hj Ha. unfold tgt. pose proof (nth_error_nth2 _ _ a _ Ha) as [_ Hk].
+    assert (Hm : nth k (map (env_val ins E) (sargs body j)) None = env_val ins E a).
+    { apply nth_error_nth. now apply map_nth_error. }
+    destruct (s_mac (nth j body dstmt)) as [d'|] eqn:Em; auto.
+    destruct (Hnest j d' Hj Em) as [Hle _].
+    rewrite fill_nth by lia. rewrite map_length.
+    replace (Nat.ltb k (List.length (sargs body j))) with true by (symmetry; apply Nat.ltb_lt; lia). exact Hm.
+  Qed.
+
+  Lemma tgt_data j : j < nb -> all_data (tgt j) = true.
+  Proof.
+    intros Hj. unfold tgt. specialize (HE j Hj). simpl in HE.
+    destruct (s_mac (nth j body dstmt)); tauto.
+  Qed.
+
+  Lemma E_out j' l j : j < nb -> j' < j -> l < nth j' (firstn j (body_nouts body)) 0 ->
+    is_data (nth l (nth j' E []) None) = true.
+  Proof.
+    intros Hj Hj' Hl. destruct HEok as [HL HEn].
+    assert (Hlt : j' < List.length E). { rewrite HL. unfold body_nouts. rewrite map_length. fold nb. lia. }
+    destruct (HEn j' Hlt) as [A B]. apply all_data_nth; auto. rewrite A.
+    rewrite <- (firstn_skipn j (body_nouts body)) at 1. rewrite app_nth1 in *; auto.
+    - rewrite firstn_length. unfold body_nouts. rewrite map_length. fold nb. lia.
+  Qed.
+
+  Lemma ref_ok_arg j k a : j < nb -> nth_error (sargs body j) k = Some a ->
+    ref_ok np (firstn j (body_nouts body)) true a = true.
+  Proof.
+    intros Hj Ha. specialize (Hrefs j Hj). rewrite forallb_forall in Hrefs. apply Hrefs.
+    eapply nth_error_In; eauto.
+  Qed.
+
+  Lemma firstn_nouts_len j : j < nb -> List.length (firstn j (body_nouts body)) = j.
+  Proof. intros Hj. rewrite firstn_length. unfold body_nouts. rewrite map_length. fold nb. lia. Qed.
+
+  Lemma fetch_ok done st j : linv done st -> deps_ok done (KBody j) ->
+    let vj' := fetch_from (fun v k x => set_in (kid sb j) v k x) (ms_ui st) (ms_body st)
+                          (sb_conns (nth j sb dsb)) 0 (nth j (ms_body st) dv) in
+    v_ins vj' = tgt j /\ v_outs vj' = v_outs (nth j (ms_body st) dv) /\
+    match s_mac (nth j body dstmt) with None => fn_coh false vj' | Some d' => coh d' (kid sb j) vj' end.
+  Proof.
+    intros (HCL & Hch & Hdu & Hdb & Hpo & Hpr) (Hj & Hdp & Hdo).
+    destruct HCL as (Li & Lo & Lu & Lb & Hu1 & Hu2 & Hc1 & Hc2 & Hlin & Hc4u & Hc4b).
+    pose proof HWL as (Hlr & Hlk & Hlu & Hcfg & Hui & Hrk & Hrb & Hrb' & Hpass & Hbody).
+    destruct (Hbody j Hj) as (Hale & HLc & HLo & Hconn & Hor). fold (kid sb j) in Hale, HLc, HLo, Hconn, Hor.
+    set (P := fun vj : vnode => match s_mac (nth j body dstmt) with
+                                | None => fn_coh false vj | Some d' => coh d' (kid sb j) vj end).
+    assert (HP : forall v k x, k < s_nins (kid sb j) -> P v -> P (set_in (kid sb j) v k x)).
+    { intros v k x Hk. unfold P. specialize (Hwk j Hj). destruct (s_mac (nth j body dstmt)) as [d'|].
+      - destruct Hwk as [Hw _]. intros Hc. apply set_in_coh; auto. now rewrite <- (wired_nins _ _ Hw).
+      - rewrite Hwk. simpl. unfold fn_coh. destruct v; simpl; auto. }
+    assert (HP0 : P (nth j (ms_body st) dv)).
+    { unfold P. specialize (Hch j Hj). unfold child_ok in Hch. destruct (s_mac (nth j body dstmt)); tauto. }
+    destruct (fetch_from_spec (kid sb j) (ms_ui st) (ms_body st) (sb_conns (nth j sb dsb)) 0 _ (s_nins (kid sb j)) P HP
+                ltac:(simpl; lia) HP0) as (P1 & O1 & C1 & L1 & N1).
+    simpl. split; [|split; [exact O1|exact P1]].
+    apply (@list_eq_nth val None).
+    { rewrite L1, tgt_length by auto. apply Hlin; auto. }
+    intros k Hk. rewrite L1 in Hk. rewrite N1 by auto. rewrite (Hlin j Hj) in Hk.
+    replace (Nat.leb 0 k && Nat.ltb k (0 + List.length (sb_conns (nth j sb dsb)))) with true
+      by (symmetry; apply andb_true_iff; split; [apply Nat.leb_le|apply Nat.ltb_lt]; lia).
+    rewrite Nat.sub_0_r. rewrite (Hconn k Hk).
+    destruct (nth_error (sargs body j) k) as [a|] eqn:Ea.
+    - rewrite (tgt_arg j k a Hj Ea). pose proof (ref_ok_arg j k a Hj Ea) as Hr.
+      destruct a as [i|j' l|z]; simpl in *.
+      + apply Nat.ltb_lt in Hr. destruct (nth i kept false) eqn:Ek; simpl.
+        * rewrite (Hdu i (Hdp i k Ea Ek) Hr Ek). simpl.
+          assert (Hd : is_data (nth i ins None) = true) by (apply all_data_nth; auto; lia).
+          destruct (nth i ins None); [reflexivity|discriminate].
+        * apply (Hc1 i j k Hr Ek). apply (Hrb i j k Hr Ek Hj Ea).
+      + apply andb_true_iff in Hr as [Hj' Hl]. apply Nat.ltb_lt in Hj', Hl.
+        rewrite firstn_nouts_len in Hj' by auto.
+        rewrite (Hdb j' (Hdo j' l k Ea) ltac:(lia)).
+        pose proof (E_out j' l j Hj Hj' Hl) as Hd.
+        destruct (nth l (nth j' E []) None); [reflexivity|discriminate].
+      + apply (Hc2 j k z Hj Ea).
+    - simpl. apply nth_error_None in Ea. unfold tgt.
+      specialize (Hch j Hj). unfold child_ok in Hch. specialize (Hwk j Hj).
+      destruct (s_mac (nth j body dstmt)) as [d'|] eqn:Em.
+      + destruct Hwk as [Hw _]. rewrite (wired_nins _ _ Hw) in Hk.
+        rewrite fill_nth by lia. rewrite map_length.
+        replace (Nat.ltb k (List.length (sargs body j))) with false by (symmetry; apply Nat.ltb_ge; lia).
+        apply Hch; auto.
+      + rewrite Hwk in Hk. simpl in Hk. lia.
+  Qed.
+
+  Lemma tgt_beyond j d' k : j < nb -> s_mac (nth j body dstmt) = Some d' ->
+    List.length (sargs body j) <= k -> k < List.length (d_params d') ->
+    nth k (tgt j) None = p_default (nth k (d_params d') dparam).
+  Proof.
+    intros Hj Em Hk Hk'. unfold tgt. rewrite Em. rewrite fill_nth by auto. rewrite map_length.
+    now replace (Nat.ltb k (List.length (sargs body j))) with false by (symmetry; apply Nat.ltb_ge; lia).
+  Qed.
+
+  Lemma child_run j vj' : j < nb -> v_ins vj' = tgt j ->
+    match s_mac (nth j body dstmt) with None => fn_coh false vj' | Some d' => coh d' (kid sb j) vj' end ->
+    exists v'' c pp, run (kid sb j) vj' = Some (v'', c, pp) /\ child_ok j v'' /\ v_ins v'' = tgt j /\
+      v_outs v'' = nth j E [] /\ v_outs v'' = app_pushes pp (v_outs vj') /\
+      (forall lx, In lx pp -> fst lx < List.length (v_outs vj')).
+  Proof.
+    intros Hj Hi HP. pose proof (tgt_data j Hj) as Hd. rewrite <- Hi in Hd.
+    pose proof (HE j Hj) as HEj. simpl in HEj. pose proof (Hwk j Hj) as Hwj. unfold child_ok.
+    destruct (s_mac (nth j body dstmt)) as [d'|] eqn:Em.
+    - destruct (Hnest j d' Hj Em) as [Hle Hrun]. destruct Hwj as [Hw _]. destruct HEj as [_ HEj].
+      destruct (Hrun _ _ Hw HP Hd) as (v'' & c & pp & Er & Hc & Hi' & Hden & Hpush & Hrange).
+      exists v'', c, pp. split; [exact Er|]. split; [split; [exact Hc|]|].
+      + intros k Hk Hk'. rewrite Hi', Hi. apply tgt_beyond; auto.
+      + split; [congruence|]. split; [|split; [exact Hpush|exact Hrange]].
+        rewrite Hi in Hden. unfold tgt in Hden. rewrite Em in Hden. congruence.
+    - rewrite Hwj. cbn [run]. destruct HEj as [_ HEj].
+      destruct (run_fn_spec false vj' HP Hd) as (v'' & c & pp & Er & Hc & Hi' & Ho & Hpush & Hrange).
+      exists v'', c, pp. split; [exact Er|]. split; [exact Hc|]. split; [congruence|].
+      split; [|split; [exact Hpush|exact Hrange]].
+      rewrite Ho, HEj, Hi. unfold tgt. now rewrite Em.
+  Qed.
+
+  Lemma step_body done st j : linv done st -> deps_ok done (KBody j) ->
+    exists st', step st (KBody j) = Some st' /\ linv (KBody j :: done) st'.
+  Proof.
+    intros Hinv Hdeps. pose proof Hdeps as (Hj & _ & _).
+    destruct (fetch_ok done st j Hinv Hdeps) as (Fi & Fo & FP).
+    set (vj' := fetch_from (fun v k x => set_in (kid sb j) v k x) (ms_ui st) (ms_body st)
+                           (sb_conns (nth j sb dsb)) 0 (nth j (ms_body st) dv)) in *.
+    destruct (child_run j vj' Hj Fi FP) as (v'' & c & pp & Er & Hck & Hi'' & Ho'' & Hpush & Hrange).
+    destruct Hinv as (HCL & Hch & Hdu & Hdb & Hpo & Hpr).
+    destruct HCL as (Li & Lo & Lu & Lb & Hu1 & Hu2 & Hc1 & Hc2 & Hlin & Hc4u & Hc4b).
+    pose proof HWL as (Hlr & Hlk & Hlu & Hcfg & Hui & Hrk & Hrb & Hrb' & Hpass & Hbody).
+    unfold step, step_kid. rewrite cinfo_nth. fold vj'. rewrite Er. eexists. split; [reflexivity|].
+    unfold absorb. rewrite Fo in Hpush, Hrange.
+    pose proof (apply_pushes_exact (sb_orecv (nth j sb dsb)) pp (ms_outs st)) as Hex.
+    pose proof (apply_pushes_range (sb_orecv (nth j sb dsb)) pp (ms_outs st) nr) as Hexr.
+    destruct (apply_pushes_link (sb_orecv (nth j sb dsb)) pp (ms_outs st) (v_outs (nth j (ms_body st) dv))) as [Hlk1 Hlk2].
+    { intros l l' o Hl Hl'.
+      pose proof (last_idx_inj _ _ _ _ (orecv_is j l o Hj Hl) (orecv_is j l' o Hj Hl')) as Heq. congruence. }
+    { intros l o Hl. exact (eq_ind_r (fun n => o < n) (orecv_lt j l o Hj Hl) Lo). }
+    { exact Hrange. }
+    { intros l o Hl. apply Hc4b; auto. }
+    rewrite <- Hpush in Hlk1.
+    destruct (apply_pushes (sb_orecv (nth j sb dsb)) pp (ms_outs st)) as [outs' q]. simpl in *.
+    unfold linv. simpl. split; [|split; [|split; [|split; [|split]]]].
+    - level_intro; auto; try lia.
+      + rewrite Hex. rewrite app_pushes_length. exact Lo.
+      + intros i j1 k Hi Hk Hr. destruct (Nat.eq_dec j1 j) as [->|Hne].
+        * rewrite nth_upd_same by lia. rewrite Hi''.
+          pose proof (Hrb' i Hi Hk) as Hx. rewrite Hr in Hx. destruct Hx as [_ Ha].
+          now rewrite (tgt_arg j k _ Hj Ha).
+        * rewrite nth_upd_other by auto. eauto.
+      + intros j1 k z Hj1 Ha. destruct (Nat.eq_dec j1 j) as [->|Hne].
+        * rewrite nth_upd_same by lia. rewrite Hi''. now rewrite (tgt_arg j k _ Hj Ha).
+        * rewrite nth_upd_other by auto. eauto.
+      + intros j1 Hj1. destruct (Nat.eq_dec j1 j) as [->|Hne].
+        * rewrite nth_upd_same by lia. rewrite Hi''. now apply tgt_length.
+        * rewrite nth_upd_other by auto. eauto.
+      + intros i o Hi Ho. rewrite Hlk2; auto.
+        intros l Hl. pose proof (last_idx_inj _ _ _ _ (orecv_is j l o Hj Hl) (uirecv_is i o Hi Ho)). discriminate.
+      + intros j1 l o Hj1 Ho. destruct (Nat.eq_dec j1 j) as [->|Hne].
+        * rewrite nth_upd_same by lia. now apply Hlk1.
+        * rewrite nth_upd_other by auto. rewrite Hlk2; auto.
+          intros l' Hl'. pose proof (last_idx_inj _ _ _ _ (orecv_is j l' o Hj Hl') (orecv_is j1 l o Hj1 Ho)) as Heq.
+          congruence.
+    - intros j1 Hj1. destruct (Nat.eq_dec j1 j) as [->|Hne].
+      + rewrite nth_upd_same by lia. exact Hck.
+      + rewrite nth_upd_other by auto. auto.
+    - intros i [H|H] Hi Hk; [discriminate|auto].
+    - intros j1 Hin Hj1. destruct (Nat.eq_dec j1 j) as [->|Hne].
+      + rewrite nth_upd_same by lia. exact Ho''.
+      + rewrite nth_upd_other by auto. destruct Hin as [H|H]; [congruence|auto].
+    - rewrite app_pushes_app, <- Hpo. exact Hex.
+    - intros ox Hin. apply in_app_or in Hin as [Hin|Hin]; auto.
+      apply Hexr; auto. intros l o Hl. eapply orecv_lt; eauto.
+  Qed.
+
+  Fixpoint sched_ok (done rest : list kidref) : Prop :=
+    match rest with [] => True | r :: rest' => deps_ok done r /\ sched_ok (r :: done) rest' end.
+
+  Lemma loop rest : forall done st, linv done st -> sched_ok done rest ->
+    exists st', fold_opt step rest st = Some st' /\ linv (rev rest ++ done) st'.
+  Proof.
+    induction rest as [|r rest IH]; intros done st Hinv Hs; simpl.
+    - exists st. auto.
+    - destruct Hs as [Hd Hs].
+      assert (Hstep : exists st', step st r = Some st' /\ linv (r :: done) st').
+      { destruct r as [i|j]; [apply step_ui; auto|apply step_body; auto]. }
+      destruct Hstep as (st1 & -> & Hinv1).
+      destruct (IH _ _ Hinv1 Hs) as (st' & Hf & Hinv'). exists st'. split; auto.
+      now rewrite <- app_assoc.
+  Qed.
+
+  Lemma sched_app done a b : sched_ok done a -> sched_ok (rev a ++ done) b -> sched_ok done (a ++ b).
+  Proof.
+    revert done; induction a as [|r a IH]; intros done; simpl; auto.
+    intros [Hd Ha] Hb. split; auto. apply IH; auto. now rewrite <- app_assoc in Hb.
+  Qed.
+
+  Lemma sched_uis done l : (forall i, In i l -> i < np) -> sched_ok done (map KUI l).
+  Proof. revert done; induction l as [|i l IH]; intros done H; simpl; auto. split; [apply H; simpl; auto|apply IH; intros; apply H; simpl; auto]. Qed.
+End Loop.
+
+Lemma pos_of_ge j ord k : k <= pos_of j ord k.
+Proof. revert k; induction ord as [|x r IH]; intros k; simpl; [lia|]. destruct (Nat.eqb x j); [lia|]. specialize (IH (S k)). lia. Qed.
+
+Lemma pos_of_le j ord k p d : p < List.length ord -> nth p ord d = j -> pos_of j ord k <= k + p.
+Proof.
+  revert k p; induction ord as [|x r IH]; intros k p Hp Hn; simpl in *; [lia|].
+  destruct (Nat.eqb_spec x j); [lia|]. destruct p as [|p]; [congruence|].
+  specialize (IH (S k) p ltac:(lia) Hn). lia.
+Qed.
+
+Lemma pos_of_in j ord k p : pos_of j ord k < k + p -> p <= List.length ord -> In j (firstn p ord).
+Proof.
+  revert k p; induction ord as [|x r IH]; intros k p Hlt Hp; simpl in *; [lia|].
+  destruct p as [|p]; [pose proof (pos_of_ge j r (S k)); destruct (Nat.eqb x j); lia|].
+  simpl. destruct (Nat.eqb_spec x j); [auto|].
+  right. apply (IH (S k)); lia.
+Qed.
+
+Lemma in_firstn_nth {A} (l : list A) p q d : q < p -> q < List.length l -> In (nth q l d) (firstn p l).
+Proof.
+  revert p q; induction l as [|x r IH]; intros p q Hq Hl; simpl in *; [lia|].
+  destruct p as [|p]; [lia|]. destruct q as [|q]; simpl; auto. right. apply IH; lia.
+Qed.
+
+Lemma skipn_S_nth {A} p (l : list A) d : p < List.length l -> skipn p l = nth p l d :: skipn (S p) l.
+Proof.
+  revert p; induction l as [|x r IH]; intros p Hp; simpl in *; [lia|].
+  destruct p as [|p]; simpl; auto. apply IH. lia.
+Qed.
+
+Lemma firstn_S_nth {A} p (l : list A) d : p < List.length l -> firstn (S p) l = firstn p l ++ [nth p l d].
+Proof.
+  revert p; induction l as [|x r IH]; intros p Hp; simpl in *; [lia|].
+  destruct p as [|p]; simpl; auto. f_equal. apply IH. lia.
+Qed.
+
+Lemma sched_body ps body kept ord : forall p done,
+  p <= List.length ord ->
+  (forall i, i < List.length ps -> nth i kept false = true -> In (KUI i) done) ->
+  (forall j', In j' (firstn p ord) -> In (KBody j') done) ->
+  (forall q, q < List.length ord ->
+     nth q ord 0 < List.length body /\
+     forall j' l k, nth_error (sargs body (nth q ord 0)) k = Some (AOut j' l) -> In j' (firstn q ord)) ->
+  (forall j k i, j < List.length body -> nth_error (sargs body j) k = Some (AParam i) -> i < List.length ps) ->
+  sched_ok ps body kept done (map KBody (skipn p ord)).
+Proof.
+  intros p. remember (List.length ord - p) as m eqn:Em. revert p Em.
+  induction m as [|m IH]; intros p Em done Hp Hui Hdone Htopo Hpar.
+  - rewrite skipn_all2 by lia. simpl. auto.
+  - assert (Hlt : p < List.length ord) by lia.
+    rewrite (skipn_S_nth p ord 0) by auto. rewrite map_cons.
+    change (deps_ok ps body kept done (KBody (nth p ord 0)) /\ sched_ok ps body kept (KBody (nth p ord 0) :: done) (map KBody (skipn (S p) ord))).
+    destruct (Htopo p Hlt) as [Hj Ha]. split.
+    + split; [exact Hj|]. split.
+      * intros i k Harg Hk. apply Hui; auto. eapply Hpar; eauto.
+      * intros j' l k Harg. apply Hdone. eapply Ha; eauto.
+    + apply IH; auto; try lia.
+      * intros i Hi Hk. right. auto.
+      * intros j' Hin. rewrite (firstn_S_nth p ord 0) in Hin by auto.
+        apply in_app_or in Hin as [Hin|[<-|[]]]; [right; auto|left; reflexivity].
+Qed.
+
+Lemma kept_uis_in kept i : In (KUI i) (kept_uis kept) <-> i < List.length kept /\ nth i kept false = true.
+Proof.
+  unfold kept_uis. rewrite in_map_iff. split.
+  - intros (x & Hx & Hin). inversion Hx; subst x. apply filter_In in Hin as [Hin Hk]. apply in_seq in Hin. split; [lia|auto].
+  - intros [Hi Hk]. exists i. split; auto. apply filter_In. split; auto. apply in_seq. lia.
+Qed.
+
+Lemma kept_uis_only kept r : In r (kept_uis kept) -> exists i, r = KUI i /\ i < List.length kept.
+Proof.
+  unfold kept_uis. rewrite in_map_iff. intros (x & <- & Hin). exists x. split; auto.
+  apply filter_In in Hin as [Hin _]. apply in_seq in Hin. lia.
+Qed.
+
+Lemma refs_of_ref_ok np nouts c a : ref_ok np nouts c a = true ->
+  match a with AParam i => i < np | AOut j l => j < List.length nouts /\ l < nth j nouts 0 | AConst _ => True end.
+Proof.
+  destruct a as [i|j l|z]; simpl; auto.
+  - apply Nat.ltb_lt.
+  - rewrite andb_true_iff, !Nat.ltb_lt. auto.
+Qed.
+
+Lemma configure_sched ps body kept fl manual order :
+  List.length kept = List.length ps ->
+  configure fl kept (List.length body) = Some (manual, order) ->
+  flow_ok fl body = true ->
+  (forall j, j < List.length body ->
+     forallb (ref_ok (List.length ps) (firstn j (body_nouts body)) true) (sargs body j) = true) ->
+  sched_ok ps body kept [] order /\
+  (forall i, i < List.length ps -> nth i kept false = true -> In (KUI i) order) /\
+  (forall j, j < List.length body -> In (KBody j) order).
+Proof.
+  intros Hlk Hcfg Hflow Hrefs.
+  assert (Hnl : forall j, j < List.length body -> List.length (firstn j (body_nouts body)) = j).
+  { intros j Hj. rewrite firstn_length. unfold body_nouts. rewrite map_length. lia. }
+  assert (Hpar : forall j k i, j < List.length body -> nth_error (sargs body j) k = Some (AParam i) -> i < List.length ps).
+  { intros j k i Hj Ha. specialize (Hrefs j Hj). rewrite forallb_forall in Hrefs.
+    exact (refs_of_ref_ok _ _ _ (AParam i) (Hrefs _ (nth_error_In _ _ Ha))). }
+  assert (Hout : forall j k j' l, j < List.length body -> nth_error (sargs body j) k = Some (AOut j' l) -> j' < j).
+  { intros j k j' l Hj Ha. specialize (Hrefs j Hj). rewrite forallb_forall in Hrefs.
+    pose proof (refs_of_ref_ok _ _ _ (AOut j' l) (Hrefs _ (nth_error_In _ _ Ha))) as [H _].
+    now rewrite Hnl in H. }
+  assert (Hord : exists ord, order = kept_uis kept ++ map KBody ord /\
+            (forall j, j < List.length body -> In j ord) /\
+            (forall q, q < List.length ord -> nth q ord 0 < List.length body /\
+               forall j' l k, nth_error (sargs body (nth q ord 0)) k = Some (AOut j' l) -> In j' (firstn q ord))).
+  { assert (Hseq : exists ord, kept_uis kept ++ map KBody (seq 0 (List.length body)) = kept_uis kept ++ map KBody ord /\
+            (forall j, j < List.length body -> In j ord) /\
+            (forall q, q < List.length ord -> nth q ord 0 < List.length body /\
+               forall j' l k, nth_error (sargs body (nth q ord 0)) k = Some (AOut j' l) -> In j' (firstn q ord))).
+    { exists (seq 0 (List.length body)). split; auto. split; [intros j Hj; apply in_seq; lia|].
+      intros q Hq. rewrite seq_length in Hq. rewrite seq_nth by auto. simpl. split; auto.
+      intros j' l k Ha. pose proof (Hout q k j' l Hq Ha) as Hlt.
+      replace j' with (nth j' (seq 0 (List.length body)) 0) at 1 by (rewrite seq_nth; lia).
+      apply in_firstn_nth; auto. rewrite seq_length. lia. }
+    destruct fl as [|ord|b]; simpl in Hcfg; try discriminate.
+    - inversion Hcfg; subst. exact Hseq.
+    - destruct ord as [|a [|b r]]; try discriminate.
+      + inversion Hcfg; subst. exact Hseq.
+      + set (ord := a :: b :: r) in *. destruct (forallb _ ord) eqn:Eall; [|discriminate].
+        inversion Hcfg; subst. exists ord. split; auto.
+        simpl in Hflow. apply andb_true_iff in Hflow as [Hflow Htopo].
+        apply andb_true_iff in Hflow as [_ Hperm].
+        unfold perm_of_seq in Hperm. apply andb_true_iff in Hperm as [_ Hcov].
+        rewrite forallb_forall in Hcov, Eall. split.
+        * intros j Hj. apply memn_In. apply Hcov. apply in_seq. lia.
+        * intros q Hq. assert (Hjq : nth q ord 0 < List.length body).
+          { apply Nat.ltb_lt. apply Eall. now apply nth_In. }
+          split; auto. intros j' l k Ha.
+          unfold topo_ok in Htopo. rewrite forallb_forall in Htopo.
+          specialize (Htopo (nth q ord 0) ltac:(apply in_seq; lia)).
+          rewrite forallb_forall in Htopo. specialize (Htopo (AOut j' l) (nth_error_In _ _ Ha)).
+          simpl in Htopo. apply Nat.ltb_lt in Htopo.
+          pose proof (pos_of_le (nth q ord 0) ord 0 q 0 Hq eq_refl) as Hle.
+          apply (pos_of_in j' ord 0 q); lia. }
+  destruct Hord as (ord & -> & Hcov & Htopo). split; [|split].
+  - apply sched_app.
+    + unfold kept_uis. apply sched_uis. intros i Hi. apply filter_In in Hi as [Hi _]. apply in_seq in Hi. lia.
+    + rewrite app_nil_r. apply (sched_body ps body kept ord 0); auto; try lia.
+      * intros i Hi Hk. apply -> in_rev. apply kept_uis_in. split; [lia|auto].
+      * simpl. tauto.
+  - intros i Hi Hk. apply in_or_app. left. apply kept_uis_in. split; [lia|auto].
+  - intros j Hj. apply in_or_app. right. apply in_map. auto.
+Qed.
